@@ -5,6 +5,7 @@ import (
 
 	"filippo.io/edwards25519"
 	"verifharness/gen"
+	"verifharness/raw"
 	"verifharness/ref"
 )
 
@@ -40,8 +41,12 @@ func C05(c *Ctx) {
 				c.Fail("construction", map[string]any{"why": "valid coordinates rejected", "how": how})
 				continue
 			}
-			var enc []byte
-			pv := catch(func() { enc = p.Bytes() })
+			var enc, enc2 []byte
+			var before [160]byte
+			if raw.PointOK() {
+				before = raw.PointBytes(p)
+			}
+			pv := catch(func() { enc = p.Bytes(); enc2 = p.Bytes() })
 			c.Eval(nontriv, want[:], []byte(how))
 			c.Tally("build:" + buildKey(how))
 			det := map[string]any{"point": hx(want[:]), "class": cls, "via": how, "got": hx(enc)}
@@ -53,6 +58,31 @@ func C05(c *Ctx) {
 			if string(enc) != string(want[:]) {
 				c.Fail("Bytes differs from the canonical encoding", det)
 				continue
+			}
+			if string(enc2) != string(want[:]) {
+				c.Fail("a second Bytes call on the same point returns something else", det)
+				continue
+			}
+			// Bytes may not change what the point IS (a value-preserving internal rewrite is
+			// not forbidden by this property; a concurrent reader would be C18's business)
+			if raw.PointOK() && raw.PointBytes(p) != before {
+				c.Tally("Bytes rewrote its receiver (recorded, not a violation by itself)")
+			}
+			if why, _ := checkPoint(p, m); why != "" {
+				det["why"] = why
+				c.Fail("after Bytes the point is no longer a valid representation of the same point", det)
+				continue
+			}
+			// the encoded point must still be usable: encode, then feed it to arithmetic that
+			// reads all four coordinates, then encode the result
+			if b%3 == 0 {
+				g := edwards25519.NewGeneratorPoint()
+				sum := new(edwards25519.Point).Add(p, g)
+				dbl := new(edwards25519.Point).Add(p, p)
+				c.Eval(nontriv, want[:], []byte(how), []byte("encode-then-use"))
+				if string(sum.Bytes()) != string(encOf(ref.Add(m, ref.Base()))) || string(dbl.Bytes()) != string(encOf(ref.Add(m, m))) {
+					c.Fail("a point gives wrong results in later arithmetic after it was encoded", det)
+				}
 			}
 			// round trip
 			q, err := new(edwards25519.Point).SetBytes(enc)
